@@ -182,6 +182,11 @@ def run(case: dict, ctx) -> dict:
     dfh = None
     if external:
         dfh = as_handle(dataf.to_bytes() if dataf.end <= (8 << 20) else dataf)
+    elif rng.random() < 0.15:
+        # a data_file argument the image does not ask for (a loader that always passes the sibling raw file): the image
+        # alone defines the guest view, so the argument is without effect
+        dfh = as_handle(bytes(rng.randrange(1, 256) for _ in range(64)) * (min(size, 1 << 20) // 64 + 1))
+        res["cnt"]["unneeded_data_file_arguments"] = 1
     o = call(QCow2, fh, data_file=dfh, backing_file=backing)
     if not o.ok:
         res["viol"].append({"what": f"open failed on conformant image: {o.brief()}", "mech": MECH, "detail": {"tb": o.tb}})
